@@ -3,6 +3,7 @@ module verif/mc
 go 1.21
 
 require (
+	github.com/BurntSushi/toml v0.0.0-00010101000000-000000000000
 	github.com/anishathalye/porcupine v1.3.0
 	github.com/grafana/carbon-relay-ng v0.0.0
 	github.com/metrics20/go-metrics20 v0.0.0-20180821133656-717ed3a27bf9
@@ -39,6 +40,8 @@ require (
 	github.com/pierrec/lz4 v0.0.0-20190327172049-315a67e90e41 // indirect
 	github.com/prometheus/procfs v0.0.0-20190425082905-87a4384529e0 // indirect
 	github.com/rcrowley/go-metrics v0.0.0-20181016184325-3113b8401b8a // indirect
+	github.com/streadway/amqp v0.0.0-20170521212453-dfe15e360485 // indirect
+	github.com/taylorchu/toki v0.0.0-20141019163204-20e86122596c // indirect
 	github.com/tinylib/msgp v1.1.0 // indirect
 	github.com/xdg/scram v0.0.0-20180814205039-7eeb5667e42c // indirect
 	github.com/xdg/stringprep v1.0.0 // indirect
